@@ -109,6 +109,17 @@ impl Send {
             return Err(UserError::PeerDisabledServerPush);
         }
 
+        // RFC 9113 6.6: PUSH_PROMISE is only sent on a peer-initiated stream
+        // that is open or half-closed (remote), never once our side of the
+        // parent has ended or the stream was reset.
+        if stream.state.is_send_closed() {
+            return Err(if stream.state.is_closed() {
+                UserError::InactiveStreamId
+            } else {
+                UserError::UnexpectedFrameType
+            });
+        }
+
         tracing::trace!(
             "send_push_promise; frame={:?}; init_window={:?}",
             frame,
